@@ -13,6 +13,7 @@ pub mod c11;
 pub mod c12;
 pub mod c13;
 pub mod c14;
+pub mod c15;
 pub mod c19;
 pub mod c20;
 
@@ -41,6 +42,7 @@ pub fn all() -> Vec<Prop> {
         Prop { id: "C20", run: c20::run, subs: c20::subs, rule: c20::RULE, assumptions: c20::ASSUMPTIONS },
         Prop { id: "C04", run: c04::run, subs: c04::subs, rule: c04::RULE, assumptions: c04::ASSUMPTIONS },
         Prop { id: "C19", run: c19::run, subs: c19::subs, rule: c19::RULE, assumptions: c19::ASSUMPTIONS },
+        Prop { id: "C15", run: c15::run, subs: c15::subs, rule: c15::RULE, assumptions: c15::ASSUMPTIONS },
     ]
 }
 
